@@ -121,6 +121,8 @@ type Op struct {
 	HFault   *HFault   `json:"hfault,omitempty"`
 	WaitFail bool      `json:"waitfail,omitempty"`
 	Intr     *Intruder `json:"intruder,omitempty"`
+	// RFail (optional, rfail.go): the n-th (0-based) storage READ of the operation returns an injected error, once
+	RFail *int `json:"rfail,omitempty"`
 	// op "test" (C12 only: helm test, action.ReleaseTesting): the --filter name=... / !name=... lists
 	TestInclude []string `json:"test_include,omitempty"`
 	TestExclude []string `json:"test_exclude,omitempty"`
@@ -191,6 +193,11 @@ type StepObs struct {
 	Kept      string                       `json:"kept,omitempty"`
 	LogCalls  []LogCall                    `json:"log_calls,omitempty"` // hook log fetches (C12)
 	Panic     string                       `json:"panic,omitempty"`
+	// storage reads made through the driver wrapper; whether the injected read fault was met; revisions whose
+	// record was DELETED while its stored status was deployed (rfail.go)
+	SReads      int   `json:"storage_reads,omitempty"`
+	RFailHit    bool  `json:"rfail_hit,omitempty"`
+	DelDeployed []int `json:"deleted_deployed,omitempty"`
 }
 
 type Obs struct {
@@ -301,6 +308,7 @@ type plan struct {
 	trace   []TEv
 	rawW    int
 	logs    []LogCall
+	rf      rfState // storage read faults (rfail.go)
 }
 
 // mutating is called before every mutating effect; reports whether the process is dead.
@@ -371,14 +379,23 @@ func (d *drv) outs(rs []*rspb.Release) []*rspb.Release {
 }
 
 func (d *drv) Get(key string) (*rspb.Release, error) {
+	if err := d.p.rf.read(&d.p.mu); err != nil {
+		return nil, err
+	}
 	r, err := d.inner.Get(key)
 	return d.out(r), err
 }
 func (d *drv) List(f func(*rspb.Release) bool) ([]*rspb.Release, error) {
+	if err := d.p.rf.read(&d.p.mu); err != nil {
+		return nil, err
+	}
 	rs, err := d.inner.List(f)
 	return d.outs(rs), err
 }
 func (d *drv) Query(l map[string]string) ([]*rspb.Release, error) {
+	if err := d.p.rf.read(&d.p.mu); err != nil {
+		return nil, err
+	}
 	rs, err := d.inner.Query(l)
 	return d.outs(rs), err
 }
@@ -434,6 +451,7 @@ func (d *drv) Delete(key string) (*rspb.Release, error) {
 	r, err := d.inner.Delete(key)
 	if err == nil && r != nil {
 		d.log("delete", r.Version, "unknown")
+		d.p.rf.deleted(&d.p.mu, r)
 	}
 	return d.out(r), err
 }
@@ -667,6 +685,7 @@ func (r *Runner) ledger() []LedgerRow {
 // RunOp executes one operation with its fault plan.
 func (r *Runner) RunOp(op *Op) (so StepObs) {
 	p := &plan{wfail: -1, crash: -1, srv: r.Srv}
+	p.rf.init(op)
 	if op.WFail != nil {
 		p.wfail = *op.WFail
 	}
@@ -761,6 +780,7 @@ func (r *Runner) RunOp(op *Op) (so StepObs) {
 	so.MutReqs = r.Srv.MutatingRequests() - mreq0
 	so.Reqs = r.Srv.Requests() - req0
 	so.SWrites = p.rawW
+	so.SReads, so.RFailHit, so.DelDeployed = p.rf.n, p.rf.hit, p.rf.delDeployed
 	return
 }
 
